@@ -107,6 +107,8 @@ def run_order_script(world, script: dict, x: int, prog: dict, specs: dict, timeo
                 see("R")
                 return
             sess = r
+            if sess.header is not None:
+                see("H")
             st = {"ended": False, "it": None, "k": 0}
             for op in script["ops"]:
                 if op in ("t", "i") and st["ended"]:
@@ -154,7 +156,7 @@ def run_order_script(world, script: dict, x: int, prog: dict, specs: dict, timeo
         notes.append(f"harness: {res[1]!r}")
     if not finished:
         see("X")
-    em = [{"e": e[0], "n": e[1] if len(e) > 1 else 0} for e in W.take(x) if e[0] in ("l", "d", "r", "s", "e")]
+    em = [{"e": e[0], "n": e[1] if len(e) > 1 else 0} for e in W.take(x) if e[0] in ("l", "d", "r", "s", "e", "h")]
     return {"em": em, "rv": rv, "notes": notes, "hung": not finished}
 
 
